@@ -1,5 +1,4 @@
 PROP = dict(
-    unclaimed=True,
     module="M3d.Props.C06",
     corr=dict(quick=300, thorough=2500),
     gen=[],
@@ -8,7 +7,7 @@ PROP = dict(
         "(sphereOut/circleOut, rectOut3/2, capsuleOut3/2, cylinderOut, coneOut, torusOut, tri2Out, segClosest3/2, triClosest/triDist, "
         "meshScan+meshSign, profileSDF/profilePointSDF, colliderSDF); what those models compute over an exact field is stated by "
         "M3d.C06.rect_sdf_exact/rect2_sdf_exact, sphere_sdf_exact/circle_sdf_exact, segment(2)_closest_optimal, "
-        "triangle_closest_optimal_partial, capsule(2)_sdf_exact, cylinder_normal_is_gradient, cylinder_cap_normal_outward, "
+        "triangle_closest_optimal + triangle_closest_regions, capsule(2)_sdf_exact, cylinder_normal_is_gradient, cylinder_cap_normal_outward, "
         "cone_normal_is_gradient (+cone_radial_unit_orth), torus_normal_is_gradient, profile_sdf_exact, profile_point_sdf_exact, "
         "mesh_sdf_sign_parity, lipschitz_of_exact/lipschitz_signed_of_exact. x.* kinds print what those theorems require on exact "
         "(dyadic) inputs: x.rect3/x.rect2 = inside flag, exact squared distance to the reported point, value = exact face distance "
@@ -36,7 +35,8 @@ PROP = dict(
         "(cone_radial_unit_orth, torus decomposition centered = k*rp + z*A); not proved for the code's OrthoBasis",
         "Cylinder/Cone/Torus *distance* values: region tests use normalised axes; validated by b.* correspondence and the Go-side "
         "predicates (nearest point at reported distance, on the surface, sign <=> Contains, 1-Lipschitz), not proved",
-        "triangle_closest_optimal_partial: the edge-region case proves optimality over the three edges, not over the whole triangle",
+        "triangle_closest_optimal assumes a non-degenerate triangle (invertible (v1 v2 n), edges of positive length); Triangle.Dist is "
+        "tied by correspondence only (its interior branch |components.Z| equals the distance because n is a unit normal)",
         "meshDistFunc branch-and-bound = linear scan is C08's theorem (M3d.Spatial.MDF.dist_spec); here the linear scan is the model "
         "and the real pruned search is compared with it (b.mesh value bit-for-bit, x.mesh exact minimiser)",
         "ray-collision counts and InBounds of meshSDF come from the real collider (C07) and are inputs of the b.mesh line",
@@ -52,8 +52,8 @@ PROP = dict(
         "Machine-checked (Lean 4, every linear ordered field, exact sqrt): Rect 2D/3D sign <=> containment, inside value = min "
         "over faces of the face distance, outside value^2 = squared distance to the clamped point which is the nearest point of "
         "the box, nearest point on the face the normal names; Sphere/Circle value r-|p-c|, nearest point on the sphere, unit normal, "
-        "incl. the centre; Segment.Closest (2D/3D) is the minimiser over the segment; Triangle.Closest optimal over the plane in the "
-        "interior region and over the three edges otherwise; Capsule value = r - distance to the segment in all regions; normals of "
+        "incl. the centre; Segment.Closest (2D/3D) is the minimiser over the segment; Triangle.Closest is the nearest point of the triangle (projection onto the plane in the "
+        "interior region, edge loop otherwise); Capsule value = r - distance to the segment in all regions; normals of "
         "Cylinder side/caps, Cone slanted side (repaired formula; the pre-repair formula is proved NOT orthogonal) and Torus are "
         "unit, orthogonal to the face's tangent directions and outward; profileSDF^2 = min over side/caps of the squared distance "
         "and its sign; profilePointSDF point at the reported distance; mesh sign = bounds && odd parity; a distance-to-set function "
@@ -62,6 +62,6 @@ PROP = dict(
     ),
     level_note=(
         "Exactness over fields, not floats (rounding is not bounded); Cylinder/Cone/Torus distance values and OrthoBasis are tied by "
-        "correspondence and Go-side predicates only; triangle theorem partial in the edge region; mesh branch-and-bound is C08."
+        "correspondence and Go-side predicates only; mesh branch-and-bound is C08."
     ),
 )
